@@ -159,16 +159,21 @@ type cniPod struct {
 	Networks    string // value of k8s.v1.cni.cncf.io/networks ("" = none)
 	WantENI     bool
 	ExtendedArg string // value of the galaxy args annotation ("" = none)
+	HostPort    int32  // > 0: the container declares this host port (tcp, container port 80)
+	Labels      map[string]string
 }
 
 func (h *cniHarness) putPod(p cniPod) {
-	pod := &corev1.Pod{ObjectMeta: metav1.ObjectMeta{Name: p.Name, Namespace: "ns", Annotations: map[string]string{}},
+	pod := &corev1.Pod{ObjectMeta: metav1.ObjectMeta{Name: p.Name, Namespace: "ns", Annotations: map[string]string{}, Labels: p.Labels},
 		Spec: corev1.PodSpec{Containers: []corev1.Container{{Name: "c"}}}}
 	if p.Networks != "" {
 		pod.Annotations[constant.MultusCNIAnnotation] = p.Networks
 	}
 	if p.ExtendedArg != "" {
 		pod.Annotations[constant.ExtendedCNIArgsAnnotation] = p.ExtendedArg
+	}
+	if p.HostPort > 0 {
+		pod.Spec.Containers[0].Ports = []corev1.ContainerPort{{HostPort: p.HostPort, ContainerPort: 80, Protocol: corev1.ProtocolTCP}}
 	}
 	if p.WantENI {
 		q := resource.NewQuantity(1, resource.DecimalSI)
